@@ -52,7 +52,7 @@ def gen_bytes(rng, n):
     return bytes(out[:n])
 
 
-def gen_case(rng, tier):
+def _gen_case(rng, tier):
     B = rng.choice(B_CHOICES)
     cap = 1500 if tier == 'quick' else 6000
     if tier == 'thorough' and rng.random() < 0.003:
@@ -107,14 +107,14 @@ def expand_unit(u):
                 yield {'S': hx(S), 'L': L, 'B': B, 'sched': sc, 'temp': 'mem', 'via': via}
 
 
-def summarise(case):
+def _summarise(case):
     c = dict(case)
     if len(c['S']) > 120:
         c['S'] = c['S'][:120] + f'...({len(case["S"]) // 2} bytes)'
     return c
 
 
-def run_case(case):
+def _run_case(case):
     res = new_result()
     S = unhx(case['S'])
     L, B = case['L'], case['B']
@@ -207,7 +207,7 @@ def _first_diff(a, b):
     return min(len(a), len(b))
 
 
-def shrink_candidates(case):
+def _shrink_candidates(case):
     S = unhx(case['S'])
     for s in shrink.bytes_cands(S):
         c = dict(case)
@@ -227,3 +227,32 @@ def shrink_candidates(case):
         yield shrink.with_key(case, 'temp', 'mem')
     if case['via'] != 'direct':
         yield shrink.with_key(case, 'via', 'direct')
+
+
+# ---- concurrent twin runs (sim.twin): a share of the seeded cases is served by 2-3 threads at once --------
+from .. import twin as _twin   # noqa: E402
+
+TWIN_SHARE = 0.06
+
+
+def gen_case(rng, tier):
+    return _twin.maybe_wrap(rng, _gen_case(rng, tier), TWIN_SHARE)
+
+
+def run_case(case):
+    if 'twin' in case:
+        return _twin.run(lambda inner, i: _run_case(inner), case)
+    return _run_case(case)
+
+
+def shrink_candidates(case):
+    if 'twin' in case:
+        yield from _twin.shrink_candidates(case, _shrink_candidates)
+        return
+    yield from _shrink_candidates(case)
+
+
+def summarise(case):
+    if 'twin' in case:
+        return {'twin_of': _summarise(case["twin"]), 'threads': case.get('n', 2), 'plan': case['plan']}
+    return _summarise(case)
